@@ -218,3 +218,69 @@ pub proof fn axiom_var_cmp_order(a: Variable, b: Variable, c: Variable)
         var_cmp(a, b) != Ordering::Less && var_cmp(b, c) != Ordering::Less ==> var_cmp(a, c) != Ordering::Less,
         var_cmp(a, a) == Ordering::Equal,
 { }
+// ---- max / min: std::cmp::max(a, b) keeps a only when a > b; std::cmp::min(a, b) keeps a unless a > b (T2, for Rc<T>
+// the comparison is T's, i.e. var_cmp)
+pub open spec fn max_spec(a: Rcvar, b: Rcvar) -> Rcvar { if var_cmp(*a, *b) == Ordering::Greater { a } else { b } }
+pub open spec fn min_spec(a: Rcvar, b: Rcvar) -> Rcvar { if var_cmp(*a, *b) == Ordering::Greater { b } else { a } }
+#[verifier::external_body]
+pub fn idiom_max_rcvar(a: Rcvar, b: Rcvar) -> (r: Rcvar) ensures r == max_spec(a, b) { max(a, b) }
+#[verifier::external_body]
+pub fn idiom_min_rcvar(a: Rcvar, b: Rcvar) -> (r: Rcvar) ensures r == min_spec(a, b) { min(a, b) }
+/// left fold of g over values[1..n] starting from values[0]
+pub open spec fn fold1(values: Seq<Rcvar>, g: spec_fn(Rcvar, Rcvar) -> Rcvar, n: nat) -> Rcvar
+    decreases n
+{ if n <= 1 || n > values.len() { values[0] } else { g(fold1(values, g, (n - 1) as nat), values[n - 1]) } }
+#[verifier::external_body]
+pub fn idiom_fold_skip1_g<F: FnMut(Rcvar, &Rcvar) -> Rcvar>(values: &Vec<Rcvar>, init: Rcvar, f: F, Ghost(g): Ghost<spec_fn(Rcvar, Rcvar) -> Rcvar>) -> (r: Rcvar)
+    requires values@.len() >= 1, init == values@[0],
+        forall|a: Rcvar, i: int| 0 <= i < values@.len() ==> f.requires((a, &values@[i])),
+        forall|a: Rcvar, b: &Rcvar, o: Rcvar| f.ensures((a, b), o) ==> o == g(a, *b),
+    ensures r == fold1(values@, g, values@.len()),
+{ values.iter().skip(1).fold(init, f) }
+pub open spec fn same_kind(s: Seq<Rcvar>) -> bool {
+    (forall|i: int| 0 <= i < s.len() ==> (*#[trigger] s[i]) is Number) || (forall|i: int| 0 <= i < s.len() ==> (*#[trigger] s[i]) is String)
+}
+pub proof fn lemma_fold_max(s: Seq<Rcvar>, n: nat)
+    requires 1 <= n <= s.len(), same_kind(s),
+    ensures ({ let r = fold1(s, |a: Rcvar, b: Rcvar| max_spec(a, b), n);
+        (exists|i: int| 0 <= i < n && r == s[i]) && forall|j: int| 0 <= j < n ==> var_cmp(*#[trigger] s[j], val(&r)) != Ordering::Greater }),
+    decreases n
+{
+    let g = |a: Rcvar, b: Rcvar| max_spec(a, b);
+    if n > 1 {
+        lemma_fold_max(s, (n - 1) as nat);
+        let p = fold1(s, g, (n - 1) as nat);
+        let r = fold1(s, g, n);
+        let k = choose|i: int| 0 <= i < n - 1 && p == s[i];
+        assert(r == max_spec(p, s[n - 1]));
+        assert forall|j: int| 0 <= j < n implies var_cmp(*#[trigger] s[j], val(&r)) != Ordering::Greater by {
+            axiom_var_cmp_order(argv(s, j), val(&p), argv(s, n - 1)); axiom_var_cmp_order(argv(s, n - 1), val(&p), argv(s, j)); axiom_var_cmp_order(val(&p), argv(s, n - 1), val(&p));
+            axiom_var_cmp_order(argv(s, n - 1), argv(s, n - 1), val(&p));
+        }
+        if r == p { assert(r == s[k]); } else { assert(r == s[n - 1]); }
+    } else {
+        axiom_var_cmp_order(argv(s, 0), argv(s, 0), argv(s, 0));
+    }
+}
+pub proof fn lemma_fold_min(s: Seq<Rcvar>, n: nat)
+    requires 1 <= n <= s.len(), same_kind(s),
+    ensures ({ let r = fold1(s, |a: Rcvar, b: Rcvar| min_spec(a, b), n);
+        (exists|i: int| 0 <= i < n && r == s[i]) && forall|j: int| 0 <= j < n ==> var_cmp(*#[trigger] s[j], val(&r)) != Ordering::Less }),
+    decreases n
+{
+    let g = |a: Rcvar, b: Rcvar| min_spec(a, b);
+    if n > 1 {
+        lemma_fold_min(s, (n - 1) as nat);
+        let p = fold1(s, g, (n - 1) as nat);
+        let r = fold1(s, g, n);
+        let k = choose|i: int| 0 <= i < n - 1 && p == s[i];
+        assert(r == min_spec(p, s[n - 1]));
+        assert forall|j: int| 0 <= j < n implies var_cmp(*#[trigger] s[j], val(&r)) != Ordering::Less by {
+            axiom_var_cmp_order(argv(s, j), val(&p), argv(s, n - 1)); axiom_var_cmp_order(argv(s, n - 1), val(&p), argv(s, j)); axiom_var_cmp_order(val(&p), argv(s, n - 1), val(&p));
+            axiom_var_cmp_order(argv(s, n - 1), argv(s, n - 1), val(&p)); axiom_var_cmp_order(val(&p), argv(s, n - 1), argv(s, j));
+        }
+        if r == p { assert(r == s[k]); } else { assert(r == s[n - 1]); }
+    } else {
+        axiom_var_cmp_order(argv(s, 0), argv(s, 0), argv(s, 0));
+    }
+}
